@@ -407,7 +407,7 @@ def vec_macro_elems(e):
     return None
 
 
-def check_tuples(run, f, cfg):
+def check_tuples(run, f, cfg, rule="C12.R4"):
     ivt = [i for i in f.impls if i.get("trait") == "crate::value::IntoValueTuple"]
     arities = {}
     for i in ivt:
@@ -415,7 +415,7 @@ def check_tuples(run, f, cfg):
         fn = f.fns[i["items"]["into_value_tuple"]]
         v, ps = single_value(fn)
         if st == "crate::value::ValueTuple":
-            run.ob("C12.R4", "into:ValueTuple", H.place(v) == "self", "IntoValueTuple for ValueTuple is the identity", sp=fn["sp"], cfg=cfg)
+            run.ob(rule, "into:ValueTuple", H.place(v) == "self", "IntoValueTuple for ValueTuple is the identity", sp=fn["sp"], cfg=cfg)
             continue
         if st.startswith("("):
             n = st.count(",") + 1
@@ -431,11 +431,11 @@ def check_tuples(run, f, cfg):
             el = vec_macro_elems(v["args"][0]) if v.get("args") else None
             comps = tuple_components(el) if el is not None else None
         want = ["self"] if n == 1 else ["self.%d" % k for k in range(n)]
-        run.ob("C12.R4", "into:arity%d" % n, var == "crate::value::ValueTuple::" + want_var and comps == want,
+        run.ob(rule, "into:arity%d" % n, var == "crate::value::ValueTuple::" + want_var and comps == want,
                "IntoValueTuple for arity %d builds ValueTuple::%s from the components in index order" % (n, want_var), sp=fn["sp"], cfg=cfg,
                detail={"variant": var, "components": comps})
         arities[n] = True
-    run.floor("C12.R4", "into-arities", len(arities), 12, cfg)
+    run.floor(rule, "into-arities", len(arities), 12, cfg)
     fvt = [i for i in f.impls if i.get("trait") == "crate::value::FromValueTuple"]
     got = {}
     for i in fvt:
@@ -489,13 +489,13 @@ def check_tuples(run, f, cfg):
                     iok = len(lets) == 1 and H.peel_ref(lets[0]["init"]).get("name") == "into_iter" and H.place(H.peel_ref(lets[0]["init"])["recv"]) == vecname
                     ok = gok and tok and iok
                     detail = {"guard_len": gok, "components": tok, "iter_from_vec": iok}
-        run.ob("C12.R4", "from:arity%d" % n, ok, "FromValueTuple for arity %d accepts only the matching shape and extracts the components in order" % n, sp=fn["sp"], cfg=cfg, detail=detail)
+        run.ob(rule, "from:arity%d" % n, ok, "FromValueTuple for arity %d accepts only the matching shape and extracts the components in order" % n, sp=fn["sp"], cfg=cfg, detail=detail)
         got[n] = True
-    run.floor("C12.R4", "from-arities", len(got), 12, cfg)
+    run.floor(rule, "from-arities", len(got), 12, cfg)
     # ValueTuple::into_iter
     ii = [i for i in f.impls if i.get("trait") == "core::iter::traits::collect::IntoIterator" and i.get("self_adt") == "crate::value::ValueTuple"]
     if len(ii) != 1:
-        run.anchor("C12.R4", "ValueTuple::into_iter", "impl not found", cfg)
+        run.anchor(rule, "ValueTuple::into_iter", "impl not found", cfg)
     else:
         fn = f.fns[ii[0]["items"]["into_iter"]]
         ms = [m for m in walk(fn["hir"]) if m.get("k") == "match" and m.get("src") == "Normal"]
@@ -511,7 +511,7 @@ def check_tuples(run, f, cfg):
                 else:
                     el = vec_macro_elems(a["body"])
                     ok = ok and el is not None and [H.place(x) for x in el] == binds
-        run.ob("C12.R4", "ValueTuple::into_iter", ok, "ValueTuple::into_iter yields the components in declaration order for every variant", sp=fn["sp"], cfg=cfg)
+        run.ob(rule, "ValueTuple::into_iter", ok, "ValueTuple::into_iter yields the components in declaration order for every variant", sp=fn["sp"], cfg=cfg)
 
 
 def check_diagonal(run, f, cfg):
